@@ -102,7 +102,6 @@ impl Property for P {
     fn assumptions() -> Vec<String> {
         vec![
             "for the background executors the OS decides the interleaving; hook-point noise (yield/short sleeps chosen from the seed) widens the windows, nothing is enumerated".into(),
-            "TimestampsCustomFormat renderings that do not sort chronologically are attributed to the listed finding KF-C07-1".into(),
         ]
     }
     fn replay_repeats() -> u32 {
